@@ -16,7 +16,10 @@ ROOT = os.path.dirname(os.path.dirname(os.path.dirname(os.path.abspath(__file__)
 FMT_CH = "bualw"           # Bytes UTF8 ASCII Latin1 WTF8
 BYTES, UTF8, ASCII, LATIN1, WTF8 = range(5)
 CHARFMT = (UTF8, ASCII, LATIN1)
+# classes of the two repaired WTF-8 findings (known_findings.json: status fixed, so a
+# recurrence is reported as a VIOLATION carrying the class)
 KF_WTF8 = "C11:wtf8-validate-accepts-stray-continuation-byte"
+KF_WTF8_MERGE = "C11:wtf8-pusht-adjacent-merge-skips-fixup"
 
 CHAR_POOL = [0x61, 0x62, 0x7A, 0x41, 0x30, 0x20, 0x0A, 0x00, 0x7F, 0x80, 0xA0, 0xE9, 0xFF, 0x100, 0x7FF, 0x800,
              0x20AC, 0xD7FF, 0xE000, 0xFFFD, 0xFFFF, 0x10000, 0x1F4A9, 0x10FFFF]
@@ -306,6 +309,35 @@ def blist(b):
     return "%d %s" % (len(b), " ".join(map(str, b))) if b else "0"
 
 
+def gen_wtf8_join(rng, npool=4):
+    """two adjacent shared slices of one buffer whose junction carries (or nearly carries) a
+    surrogate pair, reinterpreted as WTF-8 and joined with push_tendril"""
+    atom = "A" if rng.random() < 0.5 else "N"
+    left = bytes([0x61] * rng.choice([6, 9, 9, 13, 20]))
+    right = bytes([0x62] * rng.choice([6, 9, 9, 13, 20]))
+    lead = chr(rng.choice([0xD800, 0xD83D, 0xDBFF])).encode("utf-8", "surrogatepass")
+    trail = chr(rng.choice([0xDC00, 0xDCA9, 0xDFFF])).encode("utf-8", "surrogatepass")
+    k = rng.random()
+    if k < 0.5:
+        a, b = left + lead, trail + right
+    elif k < 0.65:
+        a, b = left + trail, lead + right
+    elif k < 0.8:
+        a, b = left + lead, chr(rng.choice([0x62, 0xE9, 0x20AC, 0x1F4A9])).encode("utf-8") + right
+    else:
+        a, b = left + chr(rng.choice([0xE9, 0xD7FF, 0xE000])).encode("utf-8"), trail + right
+    ops = ["new 0 0 %s" % blist(a + b), "sub 1 0 0 %d" % len(a), "sub 2 0 %d %d" % (len(a), len(b))]
+    if rng.random() < 0.8:
+        ops += ["reint 1 4", "reint 2 4"]
+    else:
+        ops = ["new 0 4 %s" % blist(a + b)] + ops[1:]
+    if rng.random() < 0.3:
+        ops.append(rng.choice(["clone 3 1", "drop 0", "clone 3 2", "popf 1 1"]))
+    ops.append("pusht 1 2")
+    ops += rng.sample(["reint 1 1", "popb 1 3", "sub 3 1 %d 8" % max(0, len(a) - 4), "push 1 3 237 176 128", "pusht 1 2", "reint 1 0"], 2)
+    return "%s %d ; %s" % (atom, npool, " ; ".join(ops))
+
+
 def gen_history(rng, nops, npool=4):
     ref = Ref(npool)
     main = rng.choices([BYTES, UTF8, ASCII, LATIN1, WTF8], [32, 40, 8, 6, 14])[0]
@@ -465,8 +497,12 @@ def oracle_c11(case, out):
                 continue
             if g[0] != e[0] or g[3] != e[1] or g[2] != len(e[1]):
                 what = "changed although the operation does not touch it" if before[j] == e and j not in map(int, [t for t in toks[1:3] if t.isdigit()]) else "differs"
+                cls = None
+                if toks[0] == "pusht" and e[0] == WTF8 and j == int(toks[1]) and before[j] and before[int(toks[2])] \
+                        and g[3] == before[j][1] + before[int(toks[2])][1]:
+                    cls = KF_WTF8_MERGE
                 return ("step %d `%s`: slot %d %s: impl %s:%s len32=%d, independent-string model %s:%s" % (
-                    i, o, j, what, FMT_CH[g[0]], g[3].hex(), g[2], FMT_CH[e[0]], e[1].hex()), None)
+                    i, o, j, what, FMT_CH[g[0]], g[3].hex(), g[2], FMT_CH[e[0]], e[1].hex()), cls)
             if not valid(g[0], g[3]):
                 return ("step %d `%s`: slot %d holds bytes invalid for its format %s: %s" % (i, o, j, FMT_CH[g[0]], g[3].hex()), None)
     return None
@@ -553,6 +589,7 @@ def run(ck):
         n = 12000 if ck.quick else 150000
         cases = corpus_cases("c11.txt")
         cases += [gen_history(ck.rng, ck.rng.randint(2, 22)) for _ in range(n)]
+        cases += [gen_wtf8_join(ck.rng) for _ in range(n // 20)]
     ck.coq_props(extra_targets=["Extract/ExtractTendril.vo"])
     impl_out, model_out, _ = build_and_run(ck, cases)
     disagreements = oracle_fail = 0
@@ -572,7 +609,8 @@ def run(ck):
     ck.cov.update({
         "evaluations": len(cases), "distinct_nontrivial": nontrivial,
         "rule": "random histories (2-22 ops, pool of 4, both atomicities, five formats, lengths around 8/9, 16/17, 32/33, "
-                "64/65; offsets at / inside / past multi-byte chars); non-trivial = a history in which some tendril was "
+                "64/65; offsets at / inside / past multi-byte chars) plus WTF-8 junction histories (adjacent shared slices "
+                "with a surrogate at the cut, joined by push_tendril); non-trivial = a history in which some tendril was "
                 "shared AND a buffer was allocated or grown AND a checked operation failed",
         "samples": cases[:3], "op_histogram": opcount, "kind_histogram": kinds, "format_histogram": fmts,
         "representation_transitions_seen": trans,
